@@ -34,7 +34,7 @@ ASSUMPTIONS = [
 def budget(tier):
     if tier == "quick":
         return dict(examples=30, shards=16)
-    return dict(examples=200, shards=16, shrink_calls=2000)
+    return dict(examples=150, shards=16, shrink_calls=2000)
 
 
 @st.composite
